@@ -497,4 +497,38 @@ def r17_4(run):
     run.floor(3)
 
 
-RULES = [("R17.1", r17_1), ("R17.2", r17_2), ("R17.3", r17_3), ("R17.4", r17_4)]
+def r17_5(run):
+    """a sub-network reproduces the results of the region it was cut from only if it carries the net-level data every calculation
+    reads: the fluid, the stored pipeflow options (user_pf_options), the component list and the std-type library.  On the path of
+    select_subnet that builds a new net (keep_everything_else=False) each of them is taken from the source net -- copied into the
+    new net, or handed to create_empty_network."""
+    from ..arrnf import ANF, C, base_of, contains, key as tkey, norm_cond, roots, walk
+    ix = run.index
+    f = ix.func(TB + ".select_subnet")
+    run.analysed(f)
+    ps = f.params()
+    r = ANF(ix, f, param_alias={ps[0]: "net"}).run()
+    w = run.where(f, f.node)
+    cen = [c for c in r.calls() if c.fn[0] == "f" and c.fn[1].endswith(".create_empty_network")]
+    _sh(len(cen) >= 1, "select_subnet builds the new net with create_empty_network")
+    got = {}
+    for k_, v_ in cen[0].kw:
+        if contains(v_, ("n", "net")):
+            got[k_] = "create_empty_network(%s=...)" % k_
+    for pn, a_ in zip(ix.func(cen[0].fn[1]).params(), cen[0].args):
+        if contains(a_, ("n", "net")):
+            got[pn] = "create_empty_network(%s)" % pn
+    new_net = cen[0].term
+    for e in r.stores():
+        if tkey(new_net) in roots(e.base) and len(e.index) == 1 and e.index[0][0] == "c" and isinstance(e.index[0][1], str):
+            k_ = e.index[0][1].lstrip(".")
+            src = ("idx", ("n", "net"), (C(k_),))
+            if any(tkey(x) == tkey(src) for x in walk(e.value)) or contains(e.value, ("call", ("attr", ("n", "net"), "get"), (C(k_), C(None)), ())):
+                got[k_] = "copied"
+    for k_ in ("fluid", "user_pf_options", "component_list", "std_types"):
+        run.ob("select_subnet|carries|%s" % k_, k_ in got,
+               "the new net of select_subnet takes %s from the source net" % k_, w, detail=str(sorted(got)))
+    run.floor(4)
+
+
+RULES = [("R17.1", r17_1), ("R17.2", r17_2), ("R17.3", r17_3), ("R17.4", r17_4), ("R17.5", r17_5)]
